@@ -142,7 +142,12 @@ Definition decode_event (body : sbytes) : option devent :=
   end.
 
 (* ---- list helpers *)
-Definition sb_eqb (a b : sbytes) : bool := if list_eq_dec N.eq_dec a b then true else false.
+Fixpoint sb_eqb (a b : sbytes) : bool :=
+  match a, b with
+  | [], [] => true
+  | x :: r, y :: r' => (x =? y) && sb_eqb r r'
+  | _, _ => false
+  end.
 Definition osb_eqb (a b : option sbytes) : bool :=
   match a, b with Some x, Some y => sb_eqb x y | None, None => true | _, _ => false end.
 
